@@ -606,6 +606,66 @@ def _f82(vio):
         _has_class(vio, ("RecordArray",))
 
 
+def _c04_types(vio):
+    return [a.get("type") or "" for a in ((vio.get("detail") or {}).get("args") or [])]
+
+
+@mechanism("F85-broadcast-size0-regular-dimension")
+def _f85(vio):
+    """broadcasting when an argument has a regular dimension of size 0 below the top level against a size-1 (or
+    other) dimension: errors ('cannot broadcast RegularArray of size 0 ...', index out of range) or lost lengths"""
+    import re
+    if (vio.get("case") or {}).get("regime") is None or vio.get("kind") not in ("unexpected-error", "wrong-value"):
+        return False
+    return any(re.search(r"(?<![0-9])0\*", t) for t in _c04_types(vio))
+
+
+@mechanism("F86-broadcast_arrays-scalar-regular")
+def _f86(vio):
+    """ak.broadcast_arrays with a Python scalar and an array that has a regular dimension: error or the scalar is not
+    repeated across that dimension"""
+    import re
+    det = vio.get("detail") or {}
+    if det.get("op") != "broadcast_arrays" or vio.get("kind") not in ("unexpected-error", "wrong-value"):
+        return False
+    args = det.get("args") or []
+    return any("scalar" in a for a in args) and any(re.search(r"\d\*", a.get("type") or "") for a in args)
+
+
+@mechanism("F88-broadcast-physical-encodings")
+def _f88(vio):
+    """broadcasting arguments of the same logical structure whose list/option nodes differ physically (ListArray vs
+    ListOffsetArray, offsets not starting at zero, unreachable content, indexed indirection): the per-level contents
+    disagree in length or the nested lists are refused"""
+    import re
+    case = vio.get("case") or {}
+    det = vio.get("detail") or {}
+    if case.get("encodings") != "physical" or vio.get("kind") != "unexpected-error":
+        return False
+    got = det.get("got") or ""
+    return bool(re.search(r"cannot broadcast \w+ of length \d+ with \w+ of length \d+", got)) or \
+        "cannot broadcast nested list" in got
+
+
+@mechanism("F91-broadcast-union-impossible-combinations")
+def _f91(vio):
+    """broadcasting union-type arguments evaluates the function on every combination of arms, including combinations
+    no element has, on empty selections whose shapes are incompatible"""
+    det = vio.get("detail") or {}
+    if (vio.get("case") or {}).get("regime") is None or vio.get("kind") != "unexpected-error":
+        return False
+    return "operands could not be broadcast together" in (det.get("got") or "") and \
+        any("U[" in t for t in _c04_types(vio))
+
+
+@mechanism("F92-merge-float16")
+def _f92(vio):
+    """results that have to merge a float16 part (np.sqrt/arctan2/true_divide of booleans and int8 give float16)
+    with other parts: 'FIXME: merge to/from float16 not implemented'"""
+    det = vio.get("detail") or {}
+    return vio.get("kind") == "unexpected-error" and "float16 not implemented" in (det.get("got") or "")
+
+
 @mechanism("F10-reduce-nonlocal")
 def _f10(vio):
     rep = _report(vio)
